@@ -670,7 +670,39 @@ func AbstractTensor(t tensor.Tensor) (AbsTensor, error) {
 
 // sameValue compares a real element with the concretised expected element.
 // mode "bits": bit-exact (any NaN equals any NaN); mode "num": additionally -0 == +0.
+// withinUlps64: float64 results within k units in the last place of the float64 reference (NaN matches NaN, zeros of either sign match).
+func withinUlps64(got, want interface{}, k int64) bool {
+	w, ok := want.(float64)
+	if !ok {
+		return got == want
+	}
+	g, ok := got.(float64)
+	if !ok {
+		return false
+	}
+	if w != w || g != g {
+		return w != w && g != g
+	}
+	ord := func(f float64) int64 {
+		b := math.Float64bits(f)
+		if b&(1<<63) != 0 {
+			return -int64(b &^ (1 << 63))
+		}
+		return int64(b)
+	}
+	d := ord(g) - ord(w)
+	if d < 0 {
+		d = -d
+	}
+	return d <= k
+}
+
 func sameValue(got, want interface{}, mode string) bool {
+	if strings.HasPrefix(mode, "ulp64:") {
+		k := 0
+		fmt.Sscanf(mode, "ulp64:%d", &k)
+		return withinUlps64(got, want, int64(k))
+	}
 	if strings.HasPrefix(mode, "ulp:") {
 		k := 0
 		fmt.Sscanf(mode, "ulp:%d", &k)
